@@ -40,3 +40,6 @@ def run(ctx, R):
     lifecycle.check_stop_check(ctx, R, funcs)
     lifecycle.check_iterable_order(ctx, R)
     flow.check_propagate(ctx, R, modules=('streamz.sources',), note_modules=())
+
+
+META['level'] += " SINGLE-FLIGHT also requires the flag to be claimed synchronously with its test and the wrapper to await the activity under isawaitable(); STOP-CHECK requires the flag to be read before a cycle's first effect."
